@@ -1338,8 +1338,12 @@ impl Property for C15 {
 
     fn strategy(tier: Tier) -> BoxedStrategy<Scenario> {
         let ev = prop_oneof![
-            7 => start(vec![(3, OpKind::Pub1), (4, OpKind::Pub2), (2, OpKind::Sub(0)), (1, OpKind::Unsub(0)), (1, OpKind::Ping)]).prop_map(|e| vec![settled(e), Ev::Settle]),
-            2 => start(vec![(1, OpKind::Pub1), (1, OpKind::Pub2), (1, OpKind::Sub(0))]).prop_map(|e| vec![e]),
+            7 => start(vec![(3, OpKind::Pub1), (4, OpKind::Pub2), (2, OpKind::Sub(0)), (1, OpKind::Unsub(0)), (1, OpKind::Ping), (2, OpKind::Pub0)]).prop_map(|e| vec![settled(e), Ev::Settle]),
+            3 => start(vec![(1, OpKind::Pub1), (1, OpKind::Pub2), (1, OpKind::Sub(0)), (2, OpKind::Pub0)]).prop_map(|e| vec![e]),
+            // a request abandoned while it is queued or half written (slow writer variant)
+            2 => (start(vec![(2, OpKind::Pub0), (1, OpKind::Pub1), (1, OpKind::Sub(0)), (1, OpKind::Ping)]), any::<bool>()).prop_map(|(e, polled)| {
+                if polled { vec![e, Ev::PollOp { sel: 65535 }, Ev::PollCtx, Ev::DropOp { sel: 65535 }, Ev::PollCtx] } else { vec![e, Ev::PollOp { sel: 65535 }, Ev::DropOp { sel: 65535 }, Ev::PollCtx] }
+            }),
             8 => ack(deco()).prop_map(|e| vec![e, Ev::Settle]),
             3 => ack(deco()).prop_map(|e| vec![e, Ev::PollCtx]),
             1 => sel().prop_map(|sel| vec![Ev::PollOp { sel }]),
@@ -1452,9 +1456,20 @@ impl Property for C15 {
     }
 
     fn run(case: &Scenario) -> Outcome {
-        let cfg = SimCfg { auto_settle: false, ..Default::default() };
+        // a third of the histories run against a slow writer (1-3 bytes per call, stalling): a
+        // request can then be abandoned while half of its packet has been accepted
+        let h = case_hash(case);
+        let slow = h % 3 == 0;
+        let cfg = SimCfg {
+            auto_settle: false,
+            write: if slow { WritePlan { per_call: 1 + (h / 3 % 3) as u16, stall: Some(1 + (h / 9 % 5) as u16) } } else { WritePlan::default() },
+            ..Default::default()
+        };
         let out = run(case, &cfg);
         let mut o = Outcome::ok();
+        if slow {
+            o.class("slow-writer");
+        }
         o.nontrivial = out.stats.late_ack_while_other_outstanding >= 1;
         if out.stats.late_acks_for_dropped > 0 {
             o.class("late-ack-for-dropped-op");
@@ -1468,7 +1483,7 @@ impl Property for C15 {
         if out.stats.inexact_starts > 0 {
             o.excluded.push("accept/refuse verdict skipped: start not in a clean window".into());
         }
-        let cand = failure_for(&out, &["C15/", "C05/", "C10/", "C07/", "C13/run-returned-without-cause", "C06/pubrel"]);
+        let cand = failure_for(&out, &["C15/", "C05/", "C10/", "C07/", "C13/run-returned-without-cause", "C06/pubrel", "C01/wire", "C06/unexpected-packet-on-wire", "C06/request-not-written"]);
         if let Some(f) = cand {
             if f.sig.starts_with("C15/") || f.sig.starts_with("PANIC/") || f.sig.starts_with("LIVELOCK/") || f.sig.starts_with("HARNESS/") {
                 o.fail = Some(f);
